@@ -60,6 +60,17 @@ def main():
     devs["scheme on past-over-future (F-03c)"] = rr["violated"]
     rep.extra["deviation_on_counterexamples"] = devs
 
+    # (B) specification -> code: behaviours of the life-cycle machine simulated by TLC, replayed on the real library
+    import behaviours
+    bres, behs = behaviours.simulate("C03_sim", F, ["x", "y"], num=(60 if quick else 600), depth=(7 if quick else 9), seed=core.seed())
+    rep.add_mc("TLC simulation of Rtamt.tla (Parse/Pastify/Update/Reset): behaviours generated for replay", bres, exhaustive=False)
+    if bres["violated"]:
+        rep.mc_violation("C03_sim", bres)
+    bcases = behaviours.to_cases(behs, ["x", "y"])
+    btr = runner.run_cases(bcases)
+    bvs, bgen, bdist = core.validate("C03_sim_replay", btr)
+    rep.add_traces(btr, bvs, bgen, bdist, nontrivial_key=lambda c: c["objs"][0]["text"] + str([(e["a"], e.get("s")) for e in c["events"]]))
+    rep.extra["tlc_behaviours_replayed"] = len(bcases)
     rng = random.Random(core.seed() * 7919 + 3)
     n = 700 if quick else 15000
     cases = []
